@@ -39,7 +39,8 @@ LEVEL_NOTE = (
     "behavioural equality of the re-read module is proved only for the phi evaluation (the one place where the modules differ) "
     "and otherwise compared on samples by the Spec.IR interpreter; model <-> source correspondence is sampled, not proved")
 TECHNIQUE = "Lean 4 proof (induction over modules / instruction lists with a placeholder invariant) over a hand model + differential correspondence"
-RULE = ("modules: fixed corner corpus (every instruction kind/operator/type/constant class, forward references, one module per finding), "
+RULE = ("modules: fixed corner corpus (every instruction kind/operator/type/constant class, forward references, 15 name-collision modules "
+        "across functions, 7 blob types of equal size/different alignment in every type position, one module per finding), "
         "irgen modules under 6 configurations decorated with volatile flags, address initialisers, special constants, underscore names, "
         "shuffled block order, C front-end modules plain and after mem2reg/CSE/clean; distinct = distinct module text; "
         "non-trivial = module with >= 1 function (all but none)")
@@ -55,8 +56,17 @@ ASSUMPTIONS = [
 ]
 
 FINDING_OF = {"inline-asm": "irtext:inline-asm", "float-text": "irtext:float-nonfinite",
-              "name-capture": "irtext:name-capture", "identifier": "irtext:identifier",
-              "rol-keyword": "irtext:rol-keyword-operand"}
+              "identifier": "irtext:identifier", "rol-keyword": "irtext:rol-keyword-operand"}
+# the two directions of name capture that the CURRENT readers exhibit (the Lean model predicts both)
+CAPTURE_A = "irtext:name-capture:value-hides-global-used-in-same-function"
+CAPTURE_B = "irtext:name-capture:later-value-captures-forward-reference"
+
+
+def finding_signature(reasons, m):
+    r = reasons[0]
+    if r == "name-capture":
+        return CAPTURE_A if K.capture_in_same_function(m) else CAPTURE_B
+    return FINDING_OF.get(r, "irtext:" + r)
 ILL_FORMED = {"global-names", "init-bytes", "local-names", "dangling-operand", "dangling-block", "types",
               "early-terminator", "entry", "phi-keys"}
 
@@ -79,6 +89,7 @@ def real_roundtrip(m):
         return r
     r["m2"] = m2
     try:
+        r["id2"] = K.identity_walk(m2)
         r["s2"] = irser.serialize(m2)
         f = io.StringIO()
         print_module(m2, file=f, verify=False)
@@ -88,13 +99,15 @@ def real_roundtrip(m):
     return r
 
 
-def failure_kind(r, s1):
+def failure_kind(r, s1, id1=None):
     if r["stage"] != "ok":
         return f"{r['stage']}:{r['exc']}"
     if r["text2"] != r["text"]:
         return "text-differs"
     if K.norm_phi(r["s2"]) != K.norm_phi(s1):
         return "structure-differs"
+    if id1 is not None and r.get("id2") != id1:
+        return "identity-differs"
     return None
 
 
@@ -123,6 +136,8 @@ def check(ctx):
         m = c["module"]
         c["plain"] = K.plain_names(m)
         c["s1"] = irser.serialize(m)
+        c["id1"] = K.identity_walk(m)
+        c["verifies"] = K.ppci_verifies(m)
         c["real"] = real_roundtrip(m)
         c["at"] = len(reqs)
         tab = K.float_table(m)
@@ -139,7 +154,7 @@ def check(ctx):
     for c in cases:
         g, r = c["gen"], c["real"]
         if (len(runs_of) < lim and g is not None and g.entries and out[c["at"] + 1] == "ok 1"
-                and failure_kind(r, c["s1"]) is None):
+                and failure_kind(r, c["s1"], c["id1"]) is None):
             runs = [(e, a) for e in g.entries if e.external_ok for a in K.irgen.gen_args(ctx.rng, e, 2)][:6]
             if runs:
                 runs_of[c["label"]] = runs
@@ -164,8 +179,15 @@ def check(ctx):
         ctx.count("in_fragment" if in_frag else "outside_fragment")
         for rs in reasons:
             ctx.count("reason_" + rs)
-        kind = failure_kind(r, s1)
+        kind = failure_kind(r, s1, c["id1"])
         ctx.count("real_" + (kind or "roundtrip-ok"))
+        # what the Lean model of the CURRENT reader predicts for this text (None = the model does not cover it)
+        if o_read.startswith("ok "):
+            predicted_ok = K.norm_phi(o_read[3:]) == K.norm_phi(s1)
+        elif o_read == "err Unsupported" or r["text"] is None:
+            predicted_ok = None
+        else:
+            predicted_ok = False
         # ---- correspondence: model printer / tokenizer / reader vs ppci --------------------------------------
         if r["text"] is not None:
             mt = bytes.fromhex(o_print[3:]).decode() if o_print not in ("ok -",) and o_print.startswith("ok ") else ""
@@ -182,7 +204,7 @@ def check(ctx):
                 ctx.disagree("read_module", label, first_diff(r["s2"], o_read[3:]), o_read[:60])
         # ---- the property on the real code -------------------------------------------------------------------------
         ill = [x for x in reasons if x in ILL_FORMED]
-        if not well_formed or ill:
+        if not (well_formed or c["verifies"]) or ill:
             ctx.count("skipped_not_well_formed")
             if well_formed and ill:
                 ctx.note(f"{label}: Spec.IR wf holds but the fragment predicate reports {ill}")
@@ -191,8 +213,14 @@ def check(ctx):
             if kind:
                 ctx.fail("irtext:roundtrip:" + kind, f"module {label} is inside the proved fragment but the real round trip fails: {kind}",
                          {"label": label, "module": s1}, text=r["text"])
+        elif kind and predicted_ok:
+            # outside the proved fragment, but the model of the current reader reads this text back exactly:
+            # the failure is not one of the known limitations of the format
+            ctx.fail("irtext:roundtrip:" + kind,
+                     f"{label}: {kind}; the module is outside the proved fragment ({reasons}) but the model of the reader round-trips it",
+                     {"label": label, "module": s1}, text=r["text"])
         elif kind:
-            sig = FINDING_OF.get(reasons[0], "irtext:" + reasons[0])
+            sig = finding_signature(reasons, c["module"])
             ctx.fail(sig, f"{label}: {kind} (excluded construct: {reasons})", {"label": label, "module": s1}, text=r["text"])
         else:
             ctx.count("outside_fragment_but_roundtrips")
